@@ -10,6 +10,7 @@ CONSTANTS
   PublishAfterUnlock = TRUE
   CreatedRevalidated = TRUE
   DeleteHoldsLock = TRUE
+  DeleteRechecks = TRUE
   Equiv = "none"
   SubSer = FALSE
   MayCancel = FALSE
